@@ -251,7 +251,8 @@ ExploreStats explore(const std::function< void(const std::vector< int > &) > &ch
     }
     if (elapsed() > opt.deadline && !cut) {
       cut = true;
-      st.complete = false;
+      if (!work.empty() || !next_work.empty())
+        st.complete = false;
       work.clear();
       next_work.clear();
     }
